@@ -5,6 +5,7 @@
 package impl
 
 import (
+	"math"
 	"math/bits"
 
 	"google.golang.org/protobuf/encoding/protowire"
@@ -62,7 +63,10 @@ var lazyUnmarshalOptions = unmarshalOptions{
 
 	flags: protoiface.UnmarshalAliasBuffer | protoiface.UnmarshalValidated,
 
-	depth: protowire.DefaultRecursionLimit,
+	// The data was validated with the recursion limit of the Unmarshal call
+	// that retained it, which may be larger than the default limit. A second,
+	// smaller limit here would silently truncate the lazily decoded message.
+	depth: math.MaxInt32,
 }
 
 type unmarshalOutput struct {
